@@ -72,3 +72,16 @@ func TestC07_KNOWN_IntegerPowerPrintsFloat(t *testing.T) {
 		t.Logf("KNOWN FINDING: {{ 2 ^ 3 }} = %q (want \"8\")", out)
 	}
 }
+
+// Known finding C16 (pinned by the upstream test TestMisc, pongo2_test.go:63): the error for a template that cannot
+// be found names the missing file but carries the line/column of the including template.
+func TestC16_KNOWN_MissingIncludePosition(t *testing.T) {
+	set := newSet(map[string]string{"main.tpl": "line one\nline two\n   {% include \"gone.tpl\" %}"})
+	_, err := set.FromFile("main.tpl")
+	if err == nil {
+		t.Fatal("no error")
+	}
+	if e, ok := err.(*pongo2.Error); ok && e.Line > 0 && e.Filename != "main.tpl" {
+		t.Logf("KNOWN FINDING: %v (position %d:%d lies in main.tpl, the error names %q)", err, e.Line, e.Column, e.Filename)
+	}
+}
